@@ -8,15 +8,16 @@ VARIABLES tid, l
 ASSUME \A t \in 1..NT : TLCSet(t, 0)
 AsSets(ss) == [i \in Ix(ss) |-> Rng(ss[i])]
 TInit == /\ tid \in 1..NT /\ l = 1
-         /\ cls = Traces[tid].cls0 /\ phase = "defined" /\ wsets = <<>> /\ store = NoStore /\ back = <<>>
+         /\ cls = Traces[tid].cls0 /\ defn = Traces[tid].def0 /\ phase = "defined" /\ wsets = <<>> /\ store = NoStore /\ back = <<>>
 Ev == Traces[tid].ev[l]
 A  == Ev.a
 Step == \/ A.n = "Write" /\ WriteAny(AsSets(A.sets))
         \/ A.n = "Extend" /\ Extend(A.f)
-        \/ A.n = "Redefine" /\ RedefineAny(A.o)
+        \/ A.n = "ExtendPair" /\ ExtendPair(A.x, A.y)
+        \/ A.n = "Redefine" /\ RedefineAny(A.o, A.d)
         \/ A.n = "Read" /\ (\E k \in 0..Len(Ev.post.cls) : Read(SubSeq(Ev.post.cls, k + 1, Len(Ev.post.cls))))
                         /\ back' = AsSets(Ev.post.back)
-Matches == cls' = Ev.post.cls /\ phase' = Ev.post.phase
+Matches == cls' = Ev.post.cls /\ defn' = Ev.post.def /\ phase' = Ev.post.phase
 ObsMatch == \/ Matches
             \/ /\ ~Matches
                /\ PrintT(ToJson([mismatch |-> Traces[tid].id, at |-> l, cls |-> cls', phase |-> phase']))
